@@ -54,8 +54,15 @@ func NewRawManager(opts ...ManagerOption) *RawManager {
 	return m
 }
 
+// sortNodes sorts the manager's nodes by ID.
+func (m *RawManager) sortNodes() {
+	m.mu.Lock()
+	defer m.mu.Unlock()
+	OrderedBy(ID).Sort(m.nodes)
+}
+
 func (m *RawManager) closeNodeConns() {
-	for _, node := range m.nodes {
+	for _, node := range m.Nodes() {
 		err := node.close()
 		if err != nil && m.logger != nil {
 			m.logger.Printf("error closing: %v", err)
@@ -98,7 +105,7 @@ func (m *RawManager) Node(id uint32) (node *RawNode, found bool) {
 func (m *RawManager) Nodes() []*RawNode {
 	m.mu.Lock()
 	defer m.mu.Unlock()
-	return m.nodes
+	return append([]*RawNode(nil), m.nodes...)
 }
 
 // Size returns the number of nodes in the Manager.
